@@ -192,7 +192,8 @@ def u_tcp(p):
 
 def u_pipe(p):
     rng = p.rng
-    v = rng.choice(["pair", "pair", "pair", "listen", "listen+connect", "listen+pending", "fresh", "connect-enoent"])
+    v = rng.choice(["pair", "pair", "pair", "listen", "listen+connect", "listen+pending", "fresh", "connect-enoent",
+                    "longname", "longname", "rw-event", "rw-event"])
     if v == "fresh":
         p.init("P")
         return
@@ -201,6 +202,29 @@ def u_pipe(p):
         b = p.init("P")
         p.add("O%d,%d" % (a, b))
         stream_traffic(p, a, b)
+        return
+    if v == "longname":
+        # names around sizeof(sun_path) = 108: what uv__pipe_close unlinks must be what was bound
+        h = p.init("P")
+        p.add("L%d,%d,%d,%d" % (h, rng.choice([100, 107, 108, 109, 200]), rng.choice([0, 0, 1]),
+                                rng.choice([0, 1])))
+        return
+    if v == "rw-event":
+        # writes queued, then one poll event that is readable and writable; close from read_cb
+        h = p.init("P")
+        p.add("o%d" % h, "s%d" % h)
+        for k in range(rng.randint(1, 3)):
+            r = p.req()
+            p.add("w%d,%d,%d" % (h, r, 4096 if k == 0 else rng.choice([1, 64])))
+            p.hooks.append("Q%d" % r)
+        if rng.random() < 0.4:
+            r = p.req()
+            p.add("d%d,%d" % (h, r))
+            p.hooks.append("Q%d" % r)
+        p.add("e%d" % h, "v%d" % h)
+        p.hooks.append("H%d" % h)
+        if rng.random() < 0.7:
+            p.on("H%d" % h, "C%d" % h)
         return
     srv = p.init("P")
     p.add("l%d" % srv)
@@ -226,8 +250,27 @@ def u_pipe(p):
 
 def u_udp(p):
     rng = p.rng
-    v = rng.choice(["fresh", "bound", "recv", "blocked", "blocked", "blocked", "sent", "to-peer"])
+    v = rng.choice(["fresh", "bound", "recv", "blocked", "blocked", "blocked", "sent", "to-peer",
+                    "rw-event", "rw-event"])
     h = p.init("U")
+    if v == "rw-event":
+        # a send queued under EAGAIN, then one poll event that is readable and writable; close from recv_cb
+        peer = p.init("U")
+        p.add("b%d" % h, "s%d" % h, "z%d,1" % h)
+        for _ in range(rng.randint(1, 3)):
+            r = p.req()
+            p.add("u%d,%d,-1" % (h, r))
+            p.hooks.append("Q%d" % r)
+        if rng.random() < 0.5:
+            p.add("R2")
+        r = p.req()
+        p.add("u%d,%d,%d" % (peer, r, h))
+        if rng.random() < 0.5:
+            p.add("z%d,0" % h)
+        p.hooks.append("H%d" % h)
+        if rng.random() < 0.7:
+            p.on("H%d" % h, "C%d" % h)
+        return
     if v == "fresh":
         return
     if v in ("bound", "recv"):
@@ -519,7 +562,7 @@ def monitor(case, line):
         if tok.startswith("ABORT"):
             return "the run aborted: " + tok[6:200]
         if c == "!":
-            m = re.match(r"!(late|reqlate|twice|closetwice|owed|never-closed|never-called|fdleak|loop_close)(-?\d+)", tok)
+            m = re.match(r"!(late|reqlate|twice|closetwice|owed|never-closed|never-called|fdleak|loop_close|sockleft)(-?\d+)", tok)
             if tok in BANG:
                 return BANG[tok]
             if m:
@@ -531,7 +574,9 @@ def monitor(case, line):
                         "never-closed": "handle %s never got its close_cb although the loop drained",
                         "never-called": "request %s never got its callback although the loop drained",
                         "fdleak": "%s descriptors left open after every handle was closed and the loop closed",
-                        "loop_close": "uv_loop_close() = %s after every handle was closed"}[m.group(1)]
+                        "loop_close": "uv_loop_close() = %s after every handle was closed",
+                        "sockleft": "%s socket file(s) created by uv_pipe_bind left in the directory after every "
+                                    "pipe handle had its close_cb"}[m.group(1)]
                 return what % m.group(2)
             return "lifecycle monitor: " + tok
         if c == "I":
